@@ -74,5 +74,22 @@ TranscriptPlain(c, s) ==
   ELSE IF Len(s) = 4 THEN { Fr(TRUE, FALSE, BReady(Partner(c.st), "")) }
   ELSE { Fr(FALSE, FALSE, BData("m" \o ToString(Len(s)))), Fr(FALSE, TRUE, BData("m" \o ToString(Len(s)))) }
 
+\* C06: role confusion.  A well-formed ZMTP/3 greeting that names the mechanism the target is
+\* configured with, with either value of the as-server bit (so also the one that claims the
+\* target's own role), then every sequence of mechanism commands of either side (without a valid
+\* secret), READY and data - exported exhaustively, because random simulation over the full
+\* grammar picks one such sequence in about 10^5.
+RoleFrames(c) == { Fr(TRUE, FALSE, BMech(i, FALSE)) : i \in 1..3 }
+            \cup { Fr(TRUE, FALSE, BReady(Partner(c.st), "")), Fr(FALSE, FALSE, BData("x")) }
+RoleAttack(c, s) ==
+  IF Len(s) = 0 THEN { Sig(TRUE) }
+  ELSE IF Len(s) = 1 THEN { Rev(3) }
+  ELSE IF Len(s) = 2 THEN { GTail(c.mech, sv, TRUE) : sv \in BOOLEAN }
+  ELSE RoleFrames(c)
+\* the peer writes its whole script before anything is read (so the script does not depend on what
+\* the model of the engine does with it), then the reads are "one token" or "all that is left"
+BlindSchedule == (Len(hist') > Len(hist) /\ hist'[Len(hist')].a = "deliver") =>
+                   (Len(sent) = Depth /\ hist'[Len(hist')].k \in {1, Len(ch)})
+
 Export == Terminal => PrintT(<<"REPLAY", ToJson([cfg |-> e.cfg, steps |-> hist])>>)
 =============================================================================
